@@ -70,6 +70,13 @@ def iterate(I, st, env, s, elems, frame):
                 nxt.append((s1, e1, oc))
             elif isinstance(el, Star):
                 nxt.extend(star_iterate(I, s1, e1, s, el, 0, frame))
+            elif type(el).__name__ == 'Opt':
+                for (s2, there) in I.decide(s1, el.key_, PSTATUS, el.allowed):
+                    e2 = e1 if s2 is s1 else dict(e1)
+                    if there:
+                        nxt.extend(_body(I, s2, e2, s, el.value, frame))
+                    else:
+                        nxt.append((s2, e2, None))
             else:
                 nxt.extend(_body(I, s1, e1, s, el, frame))
         cur = nxt
@@ -163,16 +170,21 @@ def _alphabet_compute(body):
 
 
 def param_value(I, src, letter):
+    """letter may carry an occurrence suffix ('X#2' = second X word of the command)"""
     key = ('param', vkey(src), letter)
     return key, Choice([({key: frozenset(['F'])}, NONE),
-                        ({key: frozenset(['V'])}, I.symbol('p:%s' % letter, kind='param', letter=letter))])
+                        ({key: frozenset(['V'])}, I.symbol('p:%s' % letter, kind='param', letter=letter.split('#')[0]))])
 
 
 def param_loop(I, st, env, s, it, frame):
     """one abstract iteration per parameter letter the body distinguishes (plus a generic other letter);
     every letter is absent / present without value / present with a value.  Iterations whose body only
     assigns locals are merged into lazily decided Choice values instead of forking the path."""
-    letters = _alphabet(s.body) + ['?']
+    letters = []
+    for L in _alphabet(s.body) + ['?']:
+        letters.append(L)
+        if L in getattr(I, 'param_dups', ()):
+            letters.append(L + '#2')        # a second occurrence of the same word, later in the command
     cur = [(st, env, None)]
     for L in letters:
         nxt = []
@@ -191,7 +203,7 @@ def _param_iteration(I, st, env, s, it, L, frame):
     present = cur & frozenset(['F', 'V'])
     if not present:
         return [(st, env, None)]
-    elem = TupleV([Str(L), val])
+    elem = TupleV([Str(L.split('#')[0]), val])
     # speculative run of the body under "present"
     s0 = st.clone()
     s0.dom[key] = present
@@ -273,6 +285,60 @@ def _merge_alts(alts):
 
 
 # ---------------------------------------------------------------------- comprehensions
+_MODULE_LETTERS = {}
+
+
+def _module_letters(I, mod):
+    if mod not in _MODULE_LETTERS:
+        letters = set()
+        tree = I.m.modules.get(mod)
+        if tree is not None:
+            for n in ast.walk(tree):
+                if isinstance(n, ast.Constant) and isinstance(n.value, str) and len(n.value) == 1 and n.value.isalpha():
+                    letters.add(n.value.upper())
+        _MODULE_LETTERS[mod] = sorted(letters)
+    return _MODULE_LETTERS[mod]
+
+
+def _param_comprehension(I, st, env, e, g, it, frame):
+    """comprehension over the words of a command: one optional element per letter the module distinguishes"""
+    from .values import Opt
+    elems = []
+    cur_state = st
+    for L in _module_letters(I, frame.mod) + ['?']:
+        key, val = param_value(I, it.src, L)
+        status = cur_state.dom.get(key, PSTATUS)
+        present = status & frozenset(['F', 'V'])
+        if not present:
+            continue
+        e2 = dict(env)
+        res = I.assign(cur_state.clone(), e2, g.target, TupleV([Str(L), val]), frame)
+        if len(res) != 1 or res[0][2] is not None:
+            raise Unsupported('comprehension over command words: complex target in %s' % frame.qual())
+        s2, e3, _oc = res[0]
+        keep = True
+        for c in g.ifs:
+            r = I.truth(s2, e3, c, frame)
+            if len(r) != 1 or isinstance(r[0][1], Raised):
+                raise Unsupported('comprehension over command words: undecided filter in %s' % frame.qual())
+            s2 = r[0][0]
+            keep = keep and r[0][1]
+        if not keep:
+            continue
+        r = I.eval(s2, e3, e.elt, frame)
+        if len(r) != 1 or isinstance(r[0][1], Raised) or len(r[0][0].trace) != len(cur_state.trace):
+            raise Unsupported('comprehension over command words: element expression forks or has effects in %s' % frame.qual())
+        v = r[0][1]
+        elems.append(v if 'A' not in status else Opt(key, present, v))
+    return [(st, IterV(elems, 'words')) if isinstance(e, ast.GeneratorExp) else _as_list(st, elems, frame)]
+
+
+def _as_list(st, elems, frame):
+    oid = st.new_oid('list', 'listcomp@%s' % frame.fn.name)
+    st.seqs[oid] = tuple(elems)
+    return (st, Obj(oid))
+
+
 def listcomp(I, st, env, e, frame):
     if len(e.generators) != 1 or e.generators[0].is_async:
         raise Unsupported('nested comprehension in %s' % frame.qual())
@@ -281,6 +347,9 @@ def listcomp(I, st, env, e, frame):
     for (s1, it) in I.evalf(st, env, g.iter, frame):
         if isinstance(it, Raised):
             out.append((s1, it))
+            continue
+        if isinstance(it, ParamIter):
+            out.extend(_param_comprehension(I, s1, env, e, g, it, frame))
             continue
         elems = _elements(I, s1, it, frame, e)
         tname = _norm(g.target)
@@ -328,7 +397,7 @@ def listcomp(I, st, env, e, frame):
     return out
 
 
-APPEND_EVENTS = ('seq-append', 'seq-extend', 'buildCommand', 'parser-read', 'parse', 'stringify', 'loop-iter')
+APPEND_EVENTS = ('call', 'seq-append', 'seq-extend', 'buildCommand', 'parser-read', 'parse', 'stringify', 'loop-iter')
 
 
 def _append_only_summary(I, st, env, s, star, frame):
